@@ -28,6 +28,7 @@ def main(argv):
     repo.import_permuta()
     ctx = core.Ctx(prop, tier, seed)
     try:
+        import pyvc.policy  # noqa: F401  (registers D.runtime before any worker is forked)
         mod = _load(prop)
         ctx.level = getattr(mod, "LEVEL", "exploration")
         mod.run(ctx)
@@ -58,7 +59,9 @@ def replay(path):
         return 1
     name = rec["check"]
     first = rec["first"]
-    fn = core.REGISTRY[name]
+    import pyvc.policy  # noqa: F401
+
+    fn = core.REGISTRY["D.runtime" if name.startswith("D:") else name]
     item = first["input"]
     try:
         res = fn(codec.dec(item))
